@@ -939,6 +939,10 @@ def correspondence(case, impl, model):
             if "err" not in m:
                 return f"{what}: real code raises {r['err']} ({r.get('msg')}), model defines the class"
             if m["err"] != r["err"]:
+                # which of TypeError / ValueError a *value* is rejected with is C02's subject
+                # (Sem/Validate.lean); here only the fact that the default is rejected is compared
+                if "Invalid default value" in (r.get("msg") or "") and {m["err"], r["err"]} <= {"TypeError", "ValueError"}:
+                    continue
                 return f"{what}: exception class differs: model {m['err']}, real {r['err']} ({r.get('msg')})"
             continue
         if "err" in m:
